@@ -34,4 +34,33 @@ CHECKS["C13"] = dict(
     assumptions=["reference GGM basis in harness/ref.hpp (layout as stated in C01)", "index k=d of Pos/NegProjector accepted as identity or exception"],
     runs=[run("c13", "c13.cpp"), run("c13_asan", "c13.cpp", "asan")],
 )
+
+CHECKS["C01"] = dict(
+    level=E,
+    rule="d=2..6; vectors: zero, all unit vectors (two signs/scales), all two-hot e_k+2e_l (k<l), three dense probes and their 1e+-150 (thorough: 1e-300, subnormal) rescalings; "
+         "Hermitian matrices: E_jj, E_jk+E_kj, i(E_jk-E_kj), 2x2 blocks, dense probes; all ordered pairs of a ~40-vector subset x 8 scalars for + - unary- *s s* += -= *= /= ==; "
+         "== over all dimension pairs. Oracle: documented GGM basis built independently (ref.hpp), trace projection, IEEE component-wise results. "
+         "non-trivial = some operand non-zero; distinct by hash of the operand components",
+    assumptions=["finite inputs only", "arbitrary reals covered through linearity, which is itself checked on the two-hot/probe/pair grids"],
+    runs=[run("c01", "c01.cpp"), run("c01_asan", "c01.cpp", "asan", args=["--reduced"])],
+)
+
+CHECKS["C02"] = dict(
+    level=E,
+    rule="d=2..6; every ordered pair of basis vectors (reads every structure constant) through construction, assignment over stale content, += ; "
+         "bilinearity on all two-hot x two-hot pairs with two coefficient sets (quick: d<=4, and two-hot x basis for d=5,6; thorough: all d); 10x10 probe pairs incl. 1e+-100 rescalings; "
+         "operator*, SUTrace<0>, SUTrace<AlignedStorage>. Oracle: i(AB-BA), AB+BA, Tr(AB) from dense reference matrices (bilinear extension of the reference tables), two-sided, full output vector. "
+         "non-trivial = both operands non-zero; distinct by operand hash",
+    assumptions=["finite inputs", "values outside the alphabet covered through bilinearity (checked on the two-hot grid)"],
+    runs=[run("c02", "c02.cpp"), run("c02_asan", "c02.cpp", "asan", args=["--reduced"])],
+)
+
+CHECKS["C03"] = dict(
+    level=E,
+    rule="d=2..6; every diagonal spectrum over the level alphabet {-1,0,2.5}^d (thorough {-1,0,1,2.5}^d: all degeneracy patterns) plus large (1e3), tiny (1e-6) and incommensurate spectra; "
+         "t in {0,+-0.3,1,-2.5,7,+-1e3,1e-8}; A over all basis vectors and three dense probes; both forms (Evolve(H,t); PrepareEvolve+Evolve(buffer)); H built by the reference projection. "
+         "Oracle: B_jk=A_jk exp(i(E_j-E_k)t) entry-wise; t=0 identity; group law on (t1,t2) pairs; scalar products of evolved probe pairs. non-trivial = non-zero spectrum, t!=0, A!=0",
+    assumptions=["H diagonal (documented precondition)", "finite inputs"],
+    runs=[run("c03", "c03.cpp", shards=8), run("c03_asan", "c03.cpp", "asan", args=["--reduced"])],
+)
 NOT_APPLICABLE = {}
